@@ -21,4 +21,5 @@ a82f9f4 C20
 32dce03 C20
 85aecbd C20
 b5b2aae C19
+436911d C14
 LIST
